@@ -150,7 +150,7 @@ pub fn text_tokens(s: &str) -> Option<Vec<&str>> {
 }
 
 #[cfg(not(feature = "core"))]
-mod simd {
+pub mod simd {
     pub const VARIANT: &str = "simd";
     use ::glam_simd as glam;
     include!("suite.rs");
